@@ -89,6 +89,8 @@ func (o *Options) Apply(r record.Record) {
 		r.Meta().SetAbsoluteExpiry(o.AlwaysSetAbsoluteExpiry)
 	} else if o.AlwaysSetRelativateExpiry > 0 {
 		r.Meta().SetRelativateExpiry(o.AlwaysSetRelativateExpiry)
+		// Compute the expiry time with this save, not only with the next one.
+		r.Meta().Update()
 	}
 }
 
